@@ -166,7 +166,7 @@ pub struct Alpha {
 }
 
 pub fn alpha(name: &str) -> Alpha {
-    use mccore::wide::{self, WOp};
+    use mcwide::{self as wide, WOp};
     fn conv(o: wide::WideOutcome) -> Outcome {
         if o.disabled {
             Outcome::Disabled
@@ -177,9 +177,8 @@ pub fn alpha(name: &str) -> Alpha {
         }
     }
     let wide_run: Option<fn(&[WOp], &[u8], &[Prop]) -> wide::WideOutcome> = match name {
-        "w8" => Some(wide::w8::run_one),
-        "w10" => Some(wide::w10::run_one),
-        "w16" => Some(wide::w16::run_one),
+        "w8" => Some(w8::run_one),
+        "w10" => Some(w10::run_one),
         _ => None,
     };
     if let Some(f) = wide_run {
@@ -331,25 +330,25 @@ fn default_configs(prop: Prop, tier: &str) -> Vec<(&'static str, usize)> {
     let q = tier == "quick";
     match prop {
         Prop::C01 => {
-            if q { vec![("shape", 7), ("alloc", 8), ("copy", 7), ("all", 3), ("zbig", 6), ("w8", 5), ("w10", 5), ("w16", 4)] } else { vec![("shape", 8), ("alloc", 10), ("copy", 8), ("all", 4), ("zbig", 7), ("w8", 7), ("w10", 7), ("w16", 6)] }
+            if q { vec![("shape", 7), ("alloc", 8), ("copy", 7), ("all", 3), ("zbig", 6), ("w8", 5), ("w10", 5)] } else { vec![("shape", 8), ("alloc", 10), ("copy", 8), ("all", 4), ("zbig", 7), ("w8", 7), ("w10", 7)] }
         }
         Prop::C02 => {
-            if q { vec![("alloc", 8), ("stale", 7), ("copy", 7), ("shape", 6), ("all", 3), ("w8", 5), ("w10", 5), ("w16", 4)] } else { vec![("alloc", 10), ("stale", 8), ("copy", 8), ("shape", 7), ("all", 4), ("w8", 7), ("w10", 7), ("w16", 6)] }
+            if q { vec![("alloc", 8), ("stale", 7), ("copy", 7), ("shape", 6), ("all", 3), ("w8", 5), ("w10", 5)] } else { vec![("alloc", 10), ("stale", 8), ("copy", 8), ("shape", 7), ("all", 4), ("w8", 7), ("w10", 7)] }
         }
         Prop::C04 => {
-            if q { vec![("shape", 7), ("copy", 7), ("all", 3), ("zbig", 7), ("w8", 5), ("w10", 5), ("w16", 4)] } else { vec![("shape", 8), ("copy", 8), ("all", 4), ("zbig", 8), ("alloc", 8), ("w8", 7), ("w10", 7), ("w16", 6)] }
+            if q { vec![("shape", 7), ("copy", 7), ("all", 3), ("zbig", 7), ("w8", 5), ("w10", 5)] } else { vec![("shape", 8), ("copy", 8), ("all", 4), ("zbig", 8), ("alloc", 8), ("w8", 7), ("w10", 7)] }
         }
         Prop::C05 => {
-            if q { vec![("zbig", 7), ("shape", 7), ("copy", 7), ("alloc", 7), ("all", 3), ("w8", 5), ("w10", 5), ("w16", 4)] } else { vec![("zbig", 8), ("shape", 8), ("copy", 8), ("alloc", 9), ("all", 4), ("w8", 7), ("w10", 7), ("w16", 6)] }
+            if q { vec![("zbig", 7), ("shape", 7), ("copy", 7), ("alloc", 7), ("all", 3), ("w8", 5), ("w10", 5)] } else { vec![("zbig", 8), ("shape", 8), ("copy", 8), ("alloc", 9), ("all", 4), ("w8", 7), ("w10", 7)] }
         }
         Prop::C13 => {
-            if q { vec![("alloc", 8), ("shape", 7), ("copy", 7), ("stale", 6), ("all", 3), ("zbig", 6), ("w8", 5), ("w10", 5), ("w16", 4)] } else { vec![("alloc", 10), ("shape", 8), ("copy", 8), ("stale", 8), ("all", 4), ("zbig", 7), ("w8", 7), ("w10", 7), ("w16", 6)] }
+            if q { vec![("alloc", 8), ("shape", 7), ("copy", 7), ("stale", 6), ("all", 3), ("zbig", 6), ("w8", 5), ("w10", 5)] } else { vec![("alloc", 10), ("shape", 8), ("copy", 8), ("stale", 8), ("all", 4), ("zbig", 7), ("w8", 7), ("w10", 7)] }
         }
         Prop::C15 => {
             if q { vec![("res", 9), ("all", 3), ("copy", 6)] } else { vec![("res", 11), ("all", 4), ("copy", 7)] }
         }
         Prop::C06 => {
-            if q { vec![("twin", 7), ("copy", 7), ("alloc", 8), ("w8", 5), ("w10", 5), ("w16", 4)] } else { vec![("twin", 8), ("copy", 8), ("alloc", 10), ("all", 4), ("w8", 7), ("w10", 7), ("w16", 6)] }
+            if q { vec![("twin", 7), ("copy", 7), ("alloc", 8), ("w8", 5), ("w10", 5)] } else { vec![("twin", 8), ("copy", 8), ("alloc", 10), ("all", 4), ("w8", 7), ("w10", 7)] }
         }
         Prop::C10 => {
             if q { vec![("ctwin", 7), ("copy", 7), ("all", 3)] } else { vec![("ctwin", 8), ("copy", 8), ("all", 4)] }
